@@ -112,8 +112,8 @@ class C17(PropBase):
         "mentions a path / file-system word every callee name (function path, method, macro) must be on the translator's reviewed list (else it aborts), "
         "every call anywhere in the crate of a callee that reaches the file system must be one of the derived sinks, a file-system function passed as a "
         "value aborts, in-place edits (.push/.pop/.set_file_name/...) outside the compiled builders are listed with the kind of their receiver "
-        "(heuristic: declared types and binding expressions); still outside: calls through closures / function pointers / trait objects of other "
-        "crates, `.into()` / `.parse()` conversions into a PathBuf, macros that expand to file-system calls; "
+        "(heuristic: declared types and binding expressions); `.into()` / `.parse()` are not on the list (a conversion into a PathBuf aborts) and a `let` declared with a path type is treated as a "
+        "sink; still outside: calls through closures / function pointers / trait objects of other crates, macros that expand to file-system calls; "
         "translate/join_sites.py + C17/Consumers.v: the older textual pin of every .join( / join_rel( call",
         "Path::join modelled from std's PathBuf::push (unix exactly; windows for the cases that matter: drive / double-separator "
         "/ rooted arguments); the POSIX join is additionally executed for real on every produced path by the harness; Path::parent is not modelled; "
@@ -159,7 +159,7 @@ class C17(PropBase):
                 "conditions, a real std::path join, request targets and sandbox containment on the implementation's answers.",
         "note": "Trusted: Coq kernel; the Rust-to-Gallina compiler and the std vocabulary C17/Prims.v (validated by the correspondence run on the generated "
                 "model, not verified); the regex-based data-flow extraction of consumers and sinks (unknown provenance is reported; an unknown callee name in a "
-                "path-handling file aborts the translator; calls through closures / other crates' traits and `.into()` conversions are outside the guard); Path::join semantics from std's source (Windows rules cannot be executed here: model-only; Path::parent not modelled); "
+                "path-handling file aborts the translator; calls through closures / other crates' traits are outside the guard); Path::join semantics from std's source (Windows rules cannot be executed here: model-only; Path::parent not modelled); "
                 "hand-written model of url 2.5.4 reference resolution (all branches of the dispatch; host text uninterpreted) and of debugid's rendering, both compared with the real crates on every run; ASCII case "
                 "mapping. No axioms.",
     }
